@@ -23,9 +23,11 @@ type meshLight struct {
 	Num  int   `json:"num"`
 	Ids  []int `json:"ids"`
 	Iter []int `json:"iter"`
-	Cont []int `json:"cont"`
-	Min  []int `json:"min"`
-	Max  []int `json:"max"`
+	// IterateSorted with "smaller id first" as the order: the ids exactly as delivered (not sorted by the harness)
+	IterS []int `json:"iters"`
+	Cont  []int `json:"cont"`
+	Min   []int `json:"min"`
+	Max   []int `json:"max"`
 }
 
 type find2Obs struct {
@@ -48,6 +50,7 @@ type meshEvent struct {
 	A       int         `json:"a"`
 	B       int         `json:"b"`
 	Panic   string      `json:"panic"`
+	Via     string      `json:"via,omitempty"` // the library call that realised the operation, where there are several
 	Indexed []bool      `json:"indexed"`
 	Light   []meshLight `json:"light"`
 	Full    []meshFull  `json:"full"`
@@ -70,6 +73,8 @@ type meshAPI[F comparable, C comparable, M any] struct {
 	remove      func(M, F)
 	addMesh     func(M, M)
 	copy        func(M) M
+	fromSlice   func([]F) M // NewMeshTriangles / NewMeshSegments
+	iterSorted  func(M, func(F), func(a, b F) bool)
 	deepCopy    func(M) M
 	mapCoords   func(M, func(C) C) M
 	invert      func(M) M
@@ -92,11 +97,15 @@ var mesh3API = meshAPI[*model3d.Triangle, model3d.Coord3D, *model3d.Mesh]{
 	newFace: func(cs []model3d.Coord3D) *model3d.Triangle {
 		return &model3d.Triangle{cs[0], cs[1], cs[2]}
 	},
-	faceCoords:  func(t *model3d.Triangle) []model3d.Coord3D { return t[:] },
-	add:         func(m *model3d.Mesh, f *model3d.Triangle) { m.Add(f) },
-	remove:      func(m *model3d.Mesh, f *model3d.Triangle) { m.Remove(f) },
-	addMesh:     func(m, m1 *model3d.Mesh) { m.AddMesh(m1) },
-	copy:        func(m *model3d.Mesh) *model3d.Mesh { return m.Copy() },
+	faceCoords: func(t *model3d.Triangle) []model3d.Coord3D { return t[:] },
+	add:        func(m *model3d.Mesh, f *model3d.Triangle) { m.Add(f) },
+	remove:     func(m *model3d.Mesh, f *model3d.Triangle) { m.Remove(f) },
+	addMesh:    func(m, m1 *model3d.Mesh) { m.AddMesh(m1) },
+	copy:       func(m *model3d.Mesh) *model3d.Mesh { return m.Copy() },
+	fromSlice:  func(fs []*model3d.Triangle) *model3d.Mesh { return model3d.NewMeshTriangles(fs) },
+	iterSorted: func(m *model3d.Mesh, f func(*model3d.Triangle), cmp func(a, b *model3d.Triangle) bool) {
+		m.IterateSorted(f, cmp)
+	},
 	deepCopy:    func(m *model3d.Mesh) *model3d.Mesh { return m.DeepCopy() },
 	mapCoords:   func(m *model3d.Mesh, f func(model3d.Coord3D) model3d.Coord3D) *model3d.Mesh { return m.MapCoords(f) },
 	invert:      func(m *model3d.Mesh) *model3d.Mesh { return m.InvertNormals() },
@@ -123,11 +132,15 @@ var mesh2API = meshAPI[*model2d.Segment, model2d.Coord, *model2d.Mesh]{
 	newFace: func(cs []model2d.Coord) *model2d.Segment {
 		return &model2d.Segment{cs[0], cs[1]}
 	},
-	faceCoords:  func(t *model2d.Segment) []model2d.Coord { return t[:] },
-	add:         func(m *model2d.Mesh, f *model2d.Segment) { m.Add(f) },
-	remove:      func(m *model2d.Mesh, f *model2d.Segment) { m.Remove(f) },
-	addMesh:     func(m, m1 *model2d.Mesh) { m.AddMesh(m1) },
-	copy:        func(m *model2d.Mesh) *model2d.Mesh { return m.Copy() },
+	faceCoords: func(t *model2d.Segment) []model2d.Coord { return t[:] },
+	add:        func(m *model2d.Mesh, f *model2d.Segment) { m.Add(f) },
+	remove:     func(m *model2d.Mesh, f *model2d.Segment) { m.Remove(f) },
+	addMesh:    func(m, m1 *model2d.Mesh) { m.AddMesh(m1) },
+	copy:       func(m *model2d.Mesh) *model2d.Mesh { return m.Copy() },
+	fromSlice:  func(fs []*model2d.Segment) *model2d.Mesh { return model2d.NewMeshSegments(fs) },
+	iterSorted: func(m *model2d.Mesh, f func(*model2d.Segment), cmp func(a, b *model2d.Segment) bool) {
+		m.IterateSorted(f, cmp)
+	},
 	deepCopy:    func(m *model2d.Mesh) *model2d.Mesh { return m.DeepCopy() },
 	mapCoords:   func(m *model2d.Mesh, f func(model2d.Coord) model2d.Coord) *model2d.Mesh { return m.MapCoords(f) },
 	invert:      func(m *model2d.Mesh) *model2d.Mesh { return m.InvertNormals() },
@@ -159,7 +172,7 @@ type realisation[C comparable] struct {
 }
 
 var (
-	pool3 = [][]int{{1, 2, 3}, {2, 1, 4}, {1, 2, 3}, {3, 3, 4}, {3, 4, 1}}
+	pool3 = [][]int{{1, 2, 3}, {2, 1, 4}, {1, 2, 3}, {4, 3, 3}, {3, 4, 1}}
 	pool2 = [][]int{{1, 2}, {2, 3}, {1, 2}, {3, 3}, {3, 4}, {2, 1}}
 	maps  = [][]int{{2, 1, 3, 4}, {1, 1, 3, 4}, {4, 2, 3, 3}}
 	pos3  = [][]int{{1, 1, 0}, {1, 0, 0}, {0, 0, 0}, {0, 1, 1}}
@@ -293,6 +306,8 @@ func (r *meshRunner[F, C, M]) light(m M) meshLight {
 	var it []F
 	api.iterate(m, func(f F) { it = append(it, f) })
 	l.Iter = r.ids(it)
+	l.IterS = []int{}
+	api.iterSorted(m, func(f F) { l.IterS = append(l.IterS, r.idOf[f]) }, func(a, b F) bool { return r.idOf[a] < r.idOf[b] })
 	l.Cont = []int{}
 	for i, f := range r.faces {
 		if api.contains(m, f) {
@@ -350,7 +365,12 @@ func (r *meshRunner[F, C, M]) apply(op meshOp) {
 	case "AddMesh":
 		api.addMesh(ms[op.A], ms[op.B])
 	case "Copy":
-		ms[op.B] = api.copy(ms[op.A])
+		if r.step%2 == 1 {
+			// the same plain-set meaning through the constructor: a mesh of the given face objects
+			ms[op.B] = api.fromSlice(api.slice(ms[op.A]))
+		} else {
+			ms[op.B] = api.copy(ms[op.A])
+		}
 	case "DeepCopy":
 		ms[op.B] = api.deepCopy(ms[op.A])
 		r.adopt(ms[op.B])
@@ -397,6 +417,9 @@ func runMeshBehaviour[F comparable, C comparable, M any](api meshAPI[F, C, M], r
 	for i, op := range ops {
 		r.step = i
 		ev := meshEvent{Op: op.Op, A: op.A, B: op.B, Full: []meshFull{}}
+		if op.Op == "Copy" && i%2 == 1 {
+			ev.Via = map[int]string{3: "NewMeshTriangles", 2: "NewMeshSegments"}[api.arity]
+		}
 		ev.Panic = protect(func() {
 			r.apply(op)
 			ev.Light = []meshLight{r.light(r.meshes[1]), r.light(r.meshes[2])}
